@@ -195,10 +195,10 @@ func C08(c *core.Ctx) {
 	// wall-clock: three senders queue for the ack slot behind a slow (but punctual) peer: every one of them is
 	// matched with its own ack, however long it had to wait for its turn
 	if !fine {
-		cfq := ccfg{host: []byte("h"), ack: true, timeout: 600 * time.Millisecond}
+		cfq := ccfg{host: []byte("h"), ack: true, timeout: 750 * time.Millisecond}
 		mk := func(id string) concOp {
 			o := concSend(cfq, "message", 20, id, true)
-			o.ackDelay = 350 * time.Millisecond
+			o.ackDelay = 400 * time.Millisecond
 			return o
 		}
 		progs := [][]concOp{{mk("slow-a")}, {mk("slow-b")}, {mk("slow-c")}}
@@ -207,7 +207,7 @@ func C08(c *core.Ctx) {
 		c.Hist("three queued senders behind a slow peer")
 		for w := range progs {
 			if len(run.rets[w]) != 1 || run.rets[w][0] != "ok" {
-				c.Violation("judge-go", "c08-ack-mismatch", fmt.Sprintf("sender %d of three queued senders: %v although the peer acknowledged its chunk 350 ms after its own write (timeout 600 ms)", w, run.rets[w]), map[string]interface{}{"results": renderRets(run.rets)})
+				c.Violation("judge-go", "c08-ack-mismatch", fmt.Sprintf("sender %d of three queued senders: %v although the peer acknowledged its chunk 400 ms after its own write (timeout 750 ms)", w, run.rets[w]), map[string]interface{}{"results": renderRets(run.rets)})
 			}
 		}
 	}
